@@ -14,7 +14,7 @@ from .. import core
 from .c13 import export_words  # noqa: F401  (worker entry point lives in c13)
 
 LEVEL = "model_checking"
-CFG = ("SPECIFICATION Spec\nCONSTANTS\n  AsciiOnlyDigits = %s\n  TrimNeedsBothEnds = %s\n  MaxLen = %d\nINVARIANT WsInvariant\nINVARIANT ComposedInvariant\nINVARIANT PadInvariant\n"
+CFG = ("SPECIFICATION Spec\nCONSTANTS\n  AsciiOnlyDigits = %s\n  TrimNeedsBothEnds = %s\n  CroatStrict = %s\n  MaxLen = %d\nINVARIANT WsInvariant\nINVARIANT ComposedInvariant\nINVARIANT PadInvariant\nINVARIANT CroatInvariant\n"
        "INVARIANT DigitScriptInvariant\nCHECK_DEADLOCK FALSE\n")
 BASE = [2021, 6, 15, 12, 0, 0, 0]
 
@@ -47,13 +47,17 @@ INDENT = "\n" + ("\n" + " " * 24) * 12
 
 def run(ctx):
     rng = ctx.rng
-    mc = ctx.tlc("P_C18", CFG % ("FALSE", "FALSE", 6 if ctx.quick() else 7), timeout=3000, name="P_C18_repaired")
+    mc = ctx.tlc("P_C18", CFG % ("FALSE", "FALSE", "FALSE", 5 if ctx.quick() else 7), timeout=3000, name="P_C18_repaired")
     mc.require_clean()
-    pinned = ctx.tlc("P_C18", CFG % ("TRUE", "FALSE", 4), timeout=600, name="P_C18_pinned")
+    pinned = ctx.tlc("P_C18", CFG % ("TRUE", "FALSE", "FALSE", 4), timeout=600, name="P_C18_pinned")
     # the pinned trim rule (whitespace at BOTH ends or none is removed): '1: ' keeps its colon
-    pinned_trim = ctx.tlc("P_C18", CFG % ("FALSE", "TRUE", 4), timeout=600, name="P_C18_pinned_trim")
+    pinned_trim = ctx.tlc("P_C18", (CFG % ("FALSE", "TRUE", "FALSE", 4)).replace("INVARIANT CroatInvariant\n", ""), timeout=600, name="P_C18_pinned_trim")
     if "ComposedInvariant" not in pinned_trim.invariant_violated and "PadInvariant" not in pinned_trim.invariant_violated:
         raise core.Machinery("the pinned trim rule of the sanitiser is not refuted")
+    # the pinned Croatian rule (at most one blank between the numbers, exactly ' u')
+    pinned_croat = ctx.tlc("P_C18", CFG % ("FALSE", "FALSE", "TRUE", 2), timeout=600, name="P_C18_pinned_croat")
+    if "CroatInvariant" not in pinned_croat.invariant_violated:
+        raise core.Machinery("the pinned Croatian rule of the sanitiser is not refuted")
     if mc.invariant_violated:
         ctx.violation({"tlc_counterexample": mc.counterexample()[-1:]}, "TLC refutes %s on the sanitiser model" % mc.invariant_violated)
     if not pinned.invariant_violated:
@@ -96,7 +100,7 @@ def run(ctx):
         # strings that already END in a colon (the rewritings are applied to them as they are), and the forms the
         # language-specific rules of sanitize_date look at, with the language left to detection
         strings += [("12 March 2014 09:16:", ["en"]), ("5 March 2015:", ["en"]), ("2 hours ago:", ["en"]), ("10:30:", ["en"]), ("Posted on: 12 Jan 2015:", ["en"]),
-                    ("13.11.2015. u 10:30", None), ("12.03.2014. u 10:00", None), ("12.03.2014. u 10:00", ["hr"]), ("5 \u0444\u0435\u0432\u0440\u0430\u043b\u044f 2015 \u0433.", None),
+                    ("13.11.2015. u 10:30", None), ("12.03.2014. u 10:00", None), ("12.03.2014. u 10:00", ["hr"]), ("12. 03. 2014. u 10:00", None), ("12. 03. 2014.", None), ("1. 2. 2014. u 7:05", ["hr"]), ("5 \u0444\u0435\u0432\u0440\u0430\u043b\u044f 2015 \u0433.", None),
                     ("12 \u044f\u043d\u0432\u0430\u0440\u044f 2015, \u0432 10:30", None)]
         PARSER_SETS = [["timestamp", "negative-timestamp", "relative-time", "custom-formats", "absolute-time"], ["no-spaces-time", "absolute-time"],
                        ["timestamp", "no-spaces-time"]]
@@ -147,7 +151,7 @@ def run(ctx):
             index.append((c, v))
             records.append({"tid": tid, "kind": v["kind"], "base": v["base"], "rew": v["rew"], "exc": v["exc"], "cls": v["cls"], "sancls": v["sancls"],
                             "plain": v["plain"]})
-    tuples, gen = core.validate_traces(ctx, "T_C18", "SPECIFICATION TSpec\nCONSTANT AsciiOnlyDigits = FALSE\nCONSTANT TrimNeedsBothEnds = FALSE\nPOSTCONDITION Consumed\nCHECK_DEADLOCK FALSE\n", records)
+    tuples, gen = core.validate_traces(ctx, "T_C18", "SPECIFICATION TSpec\nCONSTANT AsciiOnlyDigits = FALSE\nCONSTANT TrimNeedsBothEnds = FALSE\nCONSTANT CroatStrict = FALSE\nPOSTCONDITION Consumed\nCHECK_DEADLOCK FALSE\n", records)
     for t in tuples["REJECT"]:
         _, tid, kind, verdict, extra = t[:5]
         c, v = index[tid]
@@ -160,7 +164,7 @@ def run(ctx):
         "states": mc.distinct, "transitions": mc.generated, "traces_validated_against_impl": len(records),
         "evaluations": len(records), "distinct_nontrivial": len({(c["s"], v["v"]) for c, v in index if v["base"] and v["base"][0]}),
         "rule": "case = (string, language, one rewriting: whitespace family or a Unicode decimal-digit block); non-trivial = distinct pair whose original parses to a datetime",
-        "exhaustive": False, "digit_blocks": len(blocks), "strings": len(cases), "pinned_period_rule_refuted": pinned.invariant_violated, "pinned_trim_rule_refuted": pinned_trim.invariant_violated,
+        "exhaustive": False, "digit_blocks": len(blocks), "strings": len(cases), "pinned_period_rule_refuted": pinned.invariant_violated, "pinned_trim_rule_refuted": pinned_trim.invariant_violated, "pinned_croatian_rule_refuted": pinned_croat.invariant_violated,
         "samples": [{"original": c["s"], "rewritten": v["v"], "kind": v["kind"], "base": v["base"], "rewritten_result": v["rew"]} for c, v in index[:: max(1, len(index) // 6)]][:6],
     }
     return core.finish(ctx, LEVEL, cov, assumptions=[
